@@ -8,6 +8,9 @@ from .core.slicing import origins, origin_calls, origin_args
 CAP = 2000
 
 RULES = {
+    "C03.5": "progress is not lost to a spurious failure: the batch read returns Err only on a failed / short io_uring completion or a checksum mismatch - every comparison that "
+             "decides an Err return is one of those two. An entry that does not fit its planned range (cut by the budget) ends the batch; a read that fails there returns nothing "
+             "and can never get past that entry",
     "C03.1": "cap (MPT in the parse loop): with R the vector returned as Ok(R), every Vec::push(&mut R, _) is reachable from function entry and from any push only through the not-full edge of a test len(R) <op> K whose edge bound implies len(R) <= 1999, the len being read after the last push; R starts empty and no other call mutably borrows R; K evaluates to 2000",
     "C03.2": "budget with at-least-one: every push is reachable (from entry and from any push) only through a budget pass edge: the false edge of `next_total > max_bytes` or the true edge of `R.is_empty()`; next_total is a checked/saturating sum of the running total and the entry's read_size; max_bytes is the caller's argument; every path from a push to the next evaluation of next_total stores next_total into the running total, and the running total has no other non-zero definition",
     "C03.3": "first entry always fits the plan (at-least-one, only-allowed-bypass): when nothing has been planned yet (planned == 0) the byte range `want` planned for the block at the "
@@ -620,6 +623,67 @@ def check_first_entry_widening(ctx, facts, fn_name="batch_read_for_topic", rid="
     ctx.floor(rid, "bypass edges of the first-entry widening", n, 1)
 
 
+def check_batch_error_reasons(ctx, facts, rid="C03.5", fn_name="walrus_read::batch_read_for_topic"):
+    """A batch read FAILS (returns Err, delivering nothing and moving nothing) only for damage or a failed I/O completion: every
+    comparison that decides an Err return is a test of an io_uring completion result or the checksum comparison.  An entry
+    that runs past the end of its planned range is a budget cut - the planner cuts the last range by the remaining budget -
+    and must end the batch (`break`), not fail it: a read that fails there discards what it parsed and never advances."""
+    from .core.symexpr import expr, show, strip_refs
+    b = facts.body(fn_name)
+    ctx.saw_body(b)
+    F = common.short_fn(b.name)
+    okb = {site.bb for site, st in b.assigns() if st["place"]["l"] == 0 and not st["place"]["p"] and st["rv"]["k"] == "agg" and st["rv"].get("variant") == "Ok"}
+    if not okb:
+        ctx.anchor_missing(rid, "an Ok return of " + F)
+        return
+    n = 0
+    seen = set()
+    for T in all_tests(b):
+        if T.kind not in ("cmp", "local"):
+            continue
+        for e in (T.true_edge, T.false_edge):
+            if not e:
+                continue
+            reach = b.reachable_from([e[1]])
+            rets = [r for r in b.return_blocks() if r in reach]
+            if not rets or (reach & okb):
+                continue
+            if T.kind == "local":
+                # a flag that decides the failure (`if plan.is_tail { break } else { return Err }`)
+                key = (b.term(T.bb).get("line"), "flag")
+                if key in seen:
+                    continue
+                seen.add(key)
+                n += 1
+                so = show(strip_refs(expr(b, T.operand)), 6)
+                if re.match(r"^_\d+$", so):
+                    n -= 1
+                    continue        # a compiler temporary (drop flag) on the way out, not a condition of the source
+                if "checksum" in so or re.search(r"\bresult\(|all_success|success", so):
+                    ctx.ok(rid, F, "fails on a flag derived from completions / the checksum", b.relfile, b.term(T.bb).get("line"))
+                else:
+                    ctx.violate(rid, F, "batch-read-fails-on-untriaged-condition", b.relfile, b.term(T.bb).get("line"),
+                                "the flag %s decides an Err return of the batch read: neither a completion result nor the checksum. An entry that is incomplete in its planned "
+                                "range (the range was cut by the byte budget) is not damage; failing there discards the parsed entries and leaves the cursor where it was" % so[:60])
+                continue
+            key = (b.term(T.bb).get("line"), T.op)
+            if key in seen:
+                continue
+            seen.add(key)
+            n += 1
+            sa, sb = show(strip_refs(expr(b, T.a)), 6), show(strip_refs(expr(b, T.b)), 6)
+            if "checksum" in sa + sb:
+                ctx.ok(rid, F, "fails on a checksum mismatch", b.relfile, b.term(T.bb).get("line"))
+            elif re.search(r"\bresult\(", sa + sb):
+                ctx.ok(rid, F, "fails on a failed / short io_uring completion", b.relfile, b.term(T.bb).get("line"))
+            else:
+                ctx.violate(rid, F, "batch-read-fails-on-untriaged-condition", b.relfile, b.term(T.bb).get("line"),
+                            "the comparison %s %s %s decides an Err return of the batch read: neither a completion result nor the checksum. An entry that is incomplete in its "
+                            "planned range (the range was cut by the byte budget) is not damage; failing there discards the parsed entries, leaves the cursor where it was, and "
+                            "every later read fails the same way" % (sa[:50], T.op, sb[:50]))
+    ctx.floor(rid, "comparisons that decide an Err return of the batch read", n, 1)
+
+
 def run(ctx):
     for k, v in RULES.items():
         ctx.rule(k, v)
@@ -627,6 +691,7 @@ def run(ctx):
     check(ctx, facts)
     check_first_entry_widening(ctx, facts)
     check_budget_stop_ends_batch(ctx, facts)
+    check_batch_error_reasons(ctx, facts)
     ctx.assume("rustc MIR construction and callee resolution; Vec::push grows by exactly one; std checked_add/saturating_add do not wrap")
     ctx.assume("of the progress clause (at least one entry whenever one is unconsumed) only C03.3's structural part is decided; the planner arithmetic over runtime sizes is not")
     return {
